@@ -37,9 +37,9 @@ static void bp_name_my_slot(void)
 #define MAXU 4
 static int nreaders = 2, nupdaters = 1, rops = 30, uops = 3, park, oneshot, use_sig, explicit_reg;
 static volatile long X[MAXU], Y[MAXU];
-static long in_cs_since[MAXR + 1];
-static long minX[MAXR + 1][MAXU], maxY[MAXR + 1][MAXU];
-static int depth[MAXR + 1];
+static long in_cs_since[MAXR + MAXU + 2];
+static long minX[MAXR + MAXU + 2][MAXU], maxY[MAXR + MAXU + 2][MAXU];
+static int depth[MAXR + MAXU + 2];
 static long lclock = 1;
 
 /* lazily name the calling thread's reader slot (allocated inside the library's arena) */
@@ -139,7 +139,7 @@ static void *updater(void *arg)
 		/* C19: a handler using RCU may hit a thread that has never used RCU itself (bp registers lazily, inside the handler's
 		 * rcu_read_lock()); synchronize_rcu() must therefore run with signals blocked, otherwise the handler's registration
 		 * self-deadlocks on rcu_registry_lock held by the interrupted grace period */
-		my_r = 0;
+		my_r = MAXR + 1 + u;	/* handler sections of this updater thread get their own oracle slot */
 		vrt_set_sighandler(handler);
 	}
 	for (k = 1; k <= uops; k++) {
@@ -155,6 +155,11 @@ static void *updater(void *arg)
 			if (in_cs_since[r] && in_cs_since[r] < call_time)
 				vrt_fail("gp", "synchronize_rcu() of updater %d (call at %ld) returned while reader %d is still in a section begun at %ld",
 					 u, call_time, r, in_cs_since[r]);
+		/* sections opened by signal handlers on OTHER updater threads (e.g. while they wait inside their own synchronize_rcu()) */
+		for (r = 0; r < nupdaters; r++)
+			if (r != u && in_cs_since[MAXR + 1 + r] && in_cs_since[MAXR + 1 + r] < call_time)
+				vrt_fail("gp", "synchronize_rcu() of updater %d (call at %ld) returned while a signal handler on updater %d's thread is still in a section begun at %ld",
+					 u, call_time, r, in_cs_since[MAXR + 1 + r]);
 		vrt_point();
 		Y[u] = k;
 		vrt_log("DST Y%d %d", u, k);
